@@ -33,4 +33,12 @@ TEXT = {
   text="Clean restart: c06_clean_restart for every reachable state (same ends and height, exactly the mentioned headers incl. queued/pending ones, invariant) + c06_stop_keeps_head. Crash: c06_reopen_ends_resolve for ARBITRARY images (dangling pointers dropped, remaining ends resolve), c06_reopen_between_partial under the explicit NoHole hypothesis, c06_crash_counterexample proving the unconditional clause false (finding F14), c06_continuation_reaches_tip. Which images a crash can leave is taken from the real Store: the harness reopens a fresh real Store on EVERY prefix of the recorded commit log of random histories (plain and context-aware datastores), checks the property predicate on it and compares it with the model's reopen of the same image; 1..3 consecutive failing flush commits are injected and the final state compared with the fault-free model.",
   note="PARTIAL: the set of crash images (commit-log prefixes) is not derived inside the model, it is enumerated from the real write log; faults only in flush commits. Known finding F14 (head-side delete on a non-atomic datastore) is reported as KNOWN-FINDING.",
   technique="Lean 4 proof (restart refinement, reopen on arbitrary images, proved counter-example) + exhaustive crash-point enumeration on the real store"),
+ "C15": dict(
+  text="The bifurcation loop is defined by well-founded recursion, so its termination for EVERY verification predicate and getter is a kernel-checked obligation; c15_request_bound bounds the getter requests; c15_sound (acceptance exhibits a chain of successful verifications through the promoted intermediates), c15_promoted_fetched, c15_getter_failure_refuses, c15_only_soft_bifurcates, c15_accept_iff, c15_forged_refused, and c15_complete_trust_range (for predicates 'verifies iff distance <= R', R >= 1, honest getter: every candidate is accepted). The real Syncer is run on distance x trust-range x forged grids with getter failures at every step; verdict, exact request sequence and promoted heads are compared with the model.",
+  note="Lean kernel; hand model of the loop tied by exact trace comparison; completeness is proved for trust-range predicates only (an arbitrary predicate can make a path exist that halving does not find - the property's 'iff' is read for range predicates, as in its quantifier).",
+  technique="Lean 4 proof (well-founded recursion, fun_induction) + differential execution with recorded getter calls"),
+ "C16": dict(
+  text="Tail arithmetic regenerated from syncer_tail.go on every run and proved EQUAL to the model (rfl ties); for all 64-bit parameter values: no divide-by-zero panic (c16_no_panic_*), no wrap-around and results within [old tail, head] (c16_estimate_bounds, c16_tailEstimate_bounds), the walk loop only moves up, stays within the store and steps only over headers older than the window (c16_walk_bounds, c16_walk_retention); the head-based estimate's over-pruning is a proved counter-example (F7). The real Syncer's estimate/find/subjectiveTail are run on chain-shape x window x block-time grids; store bounds, gap-freeness, retention and repeated-call success are evaluated on the real Store.",
+  note="PARTIAL: renewTail/moveTail (store + getter interaction) are not modelled, their clauses are checked on the implementation only; open known findings F7 (retention with dense blocks) and F15 (node offline longer than the window) are reported as KNOWN-FINDING.",
+  technique="Lean 4 proof over regenerated Int64/UInt64 arithmetic + differential execution on chain-shape grids"),
 }
